@@ -8,7 +8,9 @@ from hypothesis import strategies as st
 
 from harness.common import Ctx, Inconclusive, drive, guard
 
-RULE = ("(0) halton() at EVERY index 1..2^16+2^13 for each of the first 40 primes (complete enumeration, integer reference); "
+RULE = ("(00) Halton samplers driven by a random source that answers every integers(low, high) request with the smallest / largest "
+        "admissible value (constructor and re-seeding paths): the start index must stay in [20, 2^16); "
+        "(0) halton() at EVERY index 1..2^16+2^13 for each of the first 40 primes (complete enumeration, integer reference); "
         "(i) halton(size 1-40, first d primes d 1-40, n_start in [0, 2^16+2^12)) against an exact-rational radical inverse; "
         "(ii) histories of get_n_primes(n) calls (n <= 2000) on one cache against trial division; (iii) Halton / R-sequence "
         "sampler objects on the unit box with precision 2^-17 (snapping injective on the index), dimensions 1-40 (R: 1-12), "
@@ -120,6 +122,55 @@ def check_fn_all_indices(ctx: Ctx):
                                    "sub": "halton_fn", "case": case})
             return
     ctx.exhaustive_axes[f"halton(): every index 1..{n_max} x each of the first 40 primes"] = True
+
+
+# ---- the start index whatever the random source returns ----------------------------------------------------------------
+class ExtremalGenerator:
+    """Stands in for numpy's Generator: `integers(low, high)` answers with the smallest / largest value the request admits,
+    everything else is delegated to a real generator. (Few seeds ever draw the ends of a 2^16 range; this source always does.)"""
+
+    def __init__(self, real, mode):
+        self._real, self._mode = real, mode
+
+    def integers(self, low, high=None, size=None, dtype=np.int64, endpoint=False):  # noqa: FBT002
+        if high is None:
+            low, high = 0, low
+        val = low if self._mode == "min" else (high if endpoint else high - 1)
+        return dtype(val) if size is None else np.full(size, val, dtype=dtype)
+
+    def __getattr__(self, name):
+        return getattr(self._real, name)
+
+
+def check_extremal_start(ctx: Ctx):
+    import black_it.utils.seedable as seedable
+    from black_it.samplers.halton import HaltonSampler
+
+    sub = "halton_extremal_start"
+    real_default_rng = seedable.default_rng
+    for mode in ("min", "max"):
+        for path in ("constructor", "re-seeded"):
+            case = {"mode": mode, "path": path, "d": 3}
+            ctx.count(sub, case, True, [mode, path])
+            seedable.default_rng = lambda seed=None, _m=mode: ExtremalGenerator(real_default_rng(seed), _m)
+            try:
+                smp = HaltonSampler(batch_size=2, random_state=5)
+                if path == "re-seeded":
+                    smp.random_state = 11
+                pts = smp.sample_batch(2, space(3), np.zeros((0, 3)), np.zeros(0))
+            except Exception as e:  # noqa: BLE001
+                ctx.violations.append({"key": "C13/exception", "what": f"HaltonSampler with an extremal random source ({mode}, "
+                                       f"{path}) raises {type(e).__name__}: {str(e)[:120]}", "sub": sub, "case": case})
+                return
+            finally:
+                seedable.default_rng = real_default_rng
+            ks = pts[:, 0] / STEP
+            first = bitrev(int(round(ks[0])))
+            if not (np.all(ks == np.round(ks)) and 21 <= first <= 2**16):
+                ctx.violations.append({"key": "C13/halton-start", "what": f"with a random source that returns the {mode}imum of "
+                                       f"every requested range ({path}), the first point has index {first} = s + 1: s is outside "
+                                       "[20, 2^16)", "sub": sub, "case": case})
+                return
 
 
 # ---- (ii) prime cache histories --------------------------------------------------------------------------------------
@@ -237,8 +288,8 @@ def check_sampler(ctx: Ctx, case):
             ctx.fail("C13/halton-offgrid", "coordinate 0 is not a multiple of the grid step", sub, case)
             return
         idx = [bitrev(int(k)) for k in ks]
-        if not (20 <= idx[0] <= 2**16):
-            ctx.fail("C13/halton-start", f"first index {idx[0]} is outside [20, 2^16]", sub, case)
+        if not (21 <= idx[0] <= 2**16):
+            ctx.fail("C13/halton-start", f"first index {idx[0]} = s + 1 with s outside [20, 2^16)", sub, case)
             return
         for k in range(1, len(idx)):
             if idx[k] != idx[0] + k:
@@ -370,6 +421,10 @@ def run(ctx: Ctx):
     check_fn_all_indices(ctx)
     if ctx.violations:
         return
+    if ctx.shard == 0:
+        check_extremal_start(ctx)
+        if ctx.violations:
+            return
     drive(ctx, "halton_fn", fn_cases(), check_fn, ctx.n(1500, 10000))
     drive(ctx, "primes", prime_cases(), check_primes, ctx.n(1500, 10000))
     drive(ctx, "halton_sampler", sampler_cases("halton"), check_sampler, ctx.n(1200, 8000))
